@@ -97,6 +97,11 @@ class RefEval:
                     idx.append(int(ix))
                 else:
                     idx.append(np.asarray(self(ix)))
+            if isinstance(n, AdvancedIndexInNoncontiguousAxes):
+                adv = [k for k, ix in enumerate(n.indices) if not isinstance(ix, NormalizedSlice)]
+                if adv and adv[-1] - adv[0] + 1 == len(adv):
+                    # the node kind says "separated": they were, by an Ellipsis that stood for no axis
+                    idx.insert(adv[0] + 1, Ellipsis)
             return a[tuple(idx)]
         if isinstance(n, Stack):
             return np.stack([self(a) for a in n.arrays], axis=n.axis)
